@@ -176,6 +176,13 @@ def lean_audit(pid, modules):
     return res
 
 
+def leanchecker(modules):
+    """independent re-check of the compiled .olean files of the property modules (thorough tier)"""
+    with Lock("build-lean"):
+        rc, o = sh(["lake", "env", "leanchecker"] + list(modules), cwd=LEAN, timeout=3000)
+    return rc == 0, o
+
+
 def broken_theorems(out, modules):
     broken = []
     for m in re.finditer(r"error: (\S+\.lean):(\d+):\d+", out):
